@@ -15,9 +15,9 @@ func TestS2(t *testing.T) {
 // TestS4 is the stress variant: real goroutines, watches opened while writes are in flight.
 func TestS4(t *testing.T) {
 	for _, impl := range []string{"inmem", "backed-mem", "backed-faulty", "bolt", "grpc"} {
-		q, th := 150, 1500
+		q, th := 300, 2000
 		if impl == "grpc" || impl == "bolt" {
-			q, th = 40, 400
+			q, th = 60, 500
 		}
 
 		hk.RunSub(t, hk.Sub[SPlan]{Name: "s4/" + impl, Quick: q, Thorough: th, Gen: GenS(impl), Run: RunS})
